@@ -314,7 +314,14 @@ def _check(ctx, env, case, d):
         except KeyError as e:
             evals += 1
             if kind == "remove" and op["via"] != "pmerge" and not present:
-                continue  # contract: removing what is not there raises KeyError, nothing changes
+                # contract: removing what is not there raises KeyError -- and nothing changes
+                seen = core.guarded(ctx, case, lambda: sorted(str(a) for a in w))
+                if core.crashed(seen):
+                    return evals
+                if seen != sorted(mem):
+                    ctx.violation(f"remove:wrong-entries:{desc[1]}", case, f"{when}: KeyError for absent {entry!r}, yet the set changed to {seen}, expected {sorted(mem)}")
+                    return evals
+                continue
             ctx.violation(f"{kind}:keyerror:{desc[1]}", case, f"{when}: KeyError({e}) although {entry!r} {'is' if present else 'is not'} in {sorted(mem)}")
             return evals
         if core.crashed(r):
